@@ -82,7 +82,7 @@ func main() {
 		{".", false, true}, {"..", false, true}, {"", false, true}, {"a/b", false, true}, {"a\\b", false, true}, {"../s", false, true}, {"s/..", false, true}, {"/abs", false, true}, {"s/", false, true},
 		{"...", true, false}}
 
-	n := r.N(10000, 100000)
+	n := r.N(10000, 300000)
 	lib.Parallel(n, 16, func(i int) {
 		rng := r.Rand(fmt.Sprintf("case-%d", i))
 		base := lib.TempDir("c13")
